@@ -861,6 +861,9 @@ pub struct Focus {
     pub consumer_idle_pct: u64,
     /// fault kind "clock moves backwards": percentage of clock operations that are rewinds
     pub rewind_pct: u64,
+    /// C06: do not quiesce the consumer before a put; estimates used by the decision are judged
+    /// against the interval [estimate before, estimate after] (when no ageing happened in between)
+    pub admission_race: bool,
 }
 
 impl Focus {
@@ -883,6 +886,7 @@ impl Focus {
             mirror: false,
             consumer_idle_pct: 0,
             rewind_pct: 0,
+            admission_race: false,
         }
     }
 }
@@ -1131,12 +1135,19 @@ impl Online for SeqDriver {
             return;
         }
         if let Op::Put { key, .. } | Op::Upsert { key, .. } = op {
-            // estimates are only comparable when nothing is in flight towards the sketch
-            simsync::sim::await_idle(simsync::sim::Role::Consumer);
-            for (id, (k, _)) in &self.model.charged {
-                self.pre_est.by_id.insert(*id, cache.verif_estimate(self.model.cfg.hash_of(*k)));
+            if !self.focus.admission_race {
+                // estimates are only comparable when nothing is in flight towards the sketch
+                simsync::sim::await_idle(simsync::sim::Role::Consumer);
+            } else {
+                self.pre_est.total_before = cache.verif_sketch().total_increments;
             }
-            self.pre_est.incoming = Some(cache.verif_estimate(self.model.cfg.hash_of(*key)));
+            for (id, (k, _)) in &self.model.charged {
+                let h = self.model.cfg.hash_of(*k);
+                self.pre_est.by_id.insert(*id, cache.verif_estimate(h));
+                self.pre_est.hashes.insert(*id, h);
+            }
+            self.pre_est.incoming_hash = self.model.cfg.hash_of(*key);
+            self.pre_est.incoming = Some(cache.verif_estimate(self.pre_est.incoming_hash));
         }
     }
 
@@ -1163,11 +1174,13 @@ impl Online for SeqDriver {
         let mut vals: Vec<Option<u64>> = vec![];
         let mut events = vec![];
         let mut weight_seen = None;
+        let mut weight_after_ack = None;
         for it in &items {
             match it {
                 Item::AckObserved { st: s, .. } => st = Some(*s),
                 Item::Return { res: Res::Read { vals: v, .. }, .. } => vals = v.clone(),
                 Item::Return { res: Res::Weight(w), .. } => weight_seen = Some(*w),
+                Item::WeightAfterAck { weight, .. } => weight_after_ack = Some(*weight),
                 Item::Hook { ev, .. } => events.push(ev.clone()),
                 _ => {}
             }
@@ -1197,6 +1210,32 @@ impl Online for SeqDriver {
                 _ => None,
             };
             if let Some(w) = put_like {
+                if self.focus.admission_race {
+                    // upper ends: estimates now, with everything handed over applied
+                    simsync::sim::await_idle(simsync::sim::Role::Consumer);
+                    let applied: u64 = events
+                        .iter()
+                        .map(|e| if let Hook::BatchApplied { hashes } = e { hashes.len() as u64 } else { 0 })
+                        .sum();
+                    let total_after = cache.verif_sketch().total_increments;
+                    if total_after == self.pre_est.total_before + applied {
+                        // no ageing in between: every counter only grew, so any estimate the decision
+                        // used lies between the two readings
+                        let mut hi = BTreeMap::new();
+                        for (id, h) in &self.pre_est.hashes {
+                            hi.insert(*id, cache.verif_estimate(*h));
+                        }
+                        self.pre_est.hi_by_id = Some(hi);
+                        self.pre_est.hi_incoming = Some(cache.verif_estimate(self.pre_est.incoming_hash));
+                        if applied > 0 {
+                            exec::probe_run("c06.batch_applied_during_decision");
+                        }
+                    } else {
+                        // the sketch aged during the decision: estimates are not comparable
+                        self.pre_est.by_id.clear();
+                        self.pre_est.incoming = None;
+                    }
+                }
                 check_admission(w, &events, &pre, &self.pre_est, st, &mut mis);
             }
         }
@@ -1222,6 +1261,17 @@ impl Online for SeqDriver {
             probes.dedup();
             for (class, msg) in m.compare(cache, &probes) {
                 mis.push(Mis { aspect: "sketch", class, ctx: format!("counters={}", cfgc.counters), msg });
+            }
+        }
+        if let Some(w) = weight_after_ack {
+            // read through the public API the moment the acknowledgement resolved
+            if w != self.model.total && self.model.pending.is_empty() && !self.model.tick_pending {
+                mis.push(Mis {
+                    aspect: "weight_used",
+                    class: "not-applied-at-acknowledgement".into(),
+                    ctx: String::new(),
+                    msg: format!("total_weight_used() read right after the acknowledgement resolved = {}, model {}", w, self.model.total),
+                });
             }
         }
         if let Some(w) = weight_seen {
@@ -1273,9 +1323,23 @@ pub struct PreEstimates {
     /// key id -> estimate read through the accessor with the consumer idle, just before the put
     pub by_id: BTreeMap<u64, u8>,
     pub incoming: Option<u8>,
+    /// racing mode: upper ends of the intervals (estimates after the put, consumer idle); None = exact
+    pub hi_by_id: Option<BTreeMap<u64, u8>>,
+    pub hi_incoming: Option<u8>,
+    /// accesses recorded since the last ageing, before the put (racing mode)
+    pub total_before: u64,
+    pub incoming_hash: u64,
+    pub hashes: BTreeMap<u64, u64>,
 }
 
-pub fn check_admission(w: i64, events: &[Hook], pre: &Model, est: &PreEstimates, status: Option<St>, out: &mut Vec<Mis>) {
+pub fn check_admission(w: i64, all_events: &[Hook], pre: &Model, est: &PreEstimates, status: Option<St>, out: &mut Vec<Mis>) {
+    // only the worker's decision events, in order (the consumer and the sweeper may log in between)
+    let events: Vec<Hook> = all_events
+        .iter()
+        .filter(|e| matches!(e, Hook::AdmissionBegin { .. } | Hook::CreateSpace { .. } | Hook::Victim { .. } | Hook::Evicted { .. } | Hook::SampleEmpty))
+        .cloned()
+        .collect();
+    let events = &events[..];
     let limit = pre.cfg.weight;
     let mut push = |class: &str, msg: String| {
         out.push(Mis { aspect: "admission", class: class.to_string(), ctx: String::new(), msg });
@@ -1312,8 +1376,9 @@ pub fn check_admission(w: i64, events: &[Hook], pre: &Model, est: &PreEstimates,
         }
     };
     if let Some(p) = est.incoming {
-        if p != incoming {
-            push("event-vs-observed", format!("incoming key estimate used {} but estimate() just before (consumer idle) was {}", incoming, p));
+        let hi = est.hi_incoming.unwrap_or(p);
+        if incoming < p.min(hi) || incoming > p.max(hi) {
+            push("event-vs-observed", format!("incoming key estimate used {} but estimate() was {} just before and {} just after the decision", incoming, p, hi));
         }
     }
     crate::exec::probe_run("c06.create_space_path");
@@ -1340,8 +1405,9 @@ pub fn check_admission(w: i64, events: &[Hook], pre: &Model, est: &PreEstimates,
             }
             for (id, sw, f) in sample {
                 if let Some(p) = est.by_id.get(id) {
-                    if p != f {
-                        push("event-vs-observed", format!("id {} sampled with estimate {} but estimate() just before was {}", id, f, p));
+                    let hi = est.hi_by_id.as_ref().and_then(|m| m.get(id)).copied().unwrap_or(*p);
+                    if *f < (*p).min(hi) || *f > (*p).max(hi) {
+                        push("event-vs-observed", format!("id {} sampled with estimate {} but estimate() was {} just before and {} just after the decision", id, f, p, hi));
                     }
                 }
                 if let Some(cw) = charged.get(id) {
@@ -1401,6 +1467,13 @@ pub fn check_admission(w: i64, events: &[Hook], pre: &Model, est: &PreEstimates,
     }
     if evicted >= 1 && status == Some(St::RejNoSpace) {
         crate::exec::probe_run("c06.partial_eviction_then_reject");
+    }
+    let sample_ran_dry = events.iter().any(|e| matches!(e, Hook::SampleEmpty));
+    if status == Some(St::RejNoSpace) && !rejected_by_rule && !sample_ran_dry {
+        push(
+            "rejected-without-cause",
+            format!("weight {} rejected (not enough space) after {} eviction(s) although no hotter victim was met and the sample did not run dry ({} keys still charged)", w, evicted, charged.len()),
+        );
     }
     let expect = if rejected_by_rule {
         St::RejNoSpace
